@@ -41,7 +41,7 @@ P = {
    text="All p, q of length 1..5 over {0,.1,.25,.5,1,2,NaN} and all normalised vectors over eighths up to length 4, all layout pairs in 1-D..3-D, a size sweep up to 1100 (4100), tiny entries, aliasing operands, f64/f32. The alphabet also holds -0.0 and a subnormal (1e-310 / 1e-40); the KL quotient of the reference is formed in the element type.",
    note="Exhaustive over an alphabet; ln evaluated in f64 by the oracle per term (the property's own 'within roundoff of the exactly summed terms').", ref="4/C10"),
  "C11": dict(engine=E2, technique="explicit-state BFS (stateright) over all observation histories up to a depth, each transition executing the real Histogram::add_observation; states canonicalised on (grid, counts); reference cell map and bulk-vs-incremental differential evaluated on every transition before deduplication",
-   text="All grids of 1..3 axes from a menu of edge sets (incl. zero-bin, unsorted, duplicate edges), all insertion sequences of observations from every region class (below, on each edge, inside each bin, above) up to depth 7-8 (9-10; 5 (7) for three-axis grids): counts equal the reference map after every step, rejected inserts change nothing, counts shape equals grid shape, matrix form equals incremental form in both memory orders. Edge lists reach Edges through Vec, fresh Array1 and narrowed / stepped owned Array1, rotating per axis. Grids with a 12-edge axis (depth 4/3/2).",
+   text="All grids of 1..3 axes from a menu of edge sets (incl. zero-bin, unsorted, duplicate edges), all insertion sequences of observations from every region class (below, on each edge, inside each bin, above) up to depth 7-8 (9-10; 5 (7) for three-axis grids): counts equal the reference map after every step, rejected inserts change nothing, counts shape equals grid shape, matrix form equals incremental form in both memory orders. Edge lists reach Edges through Vec, fresh Array1 and narrowed / stepped owned Array1, rotating per axis. Grids with a 12-edge axis (depth 4/3/2). E1 part: every ordered pair of five short edge lists x every integer point of (-1..9)^2 as an owned array, a reversed view and a stepped view, one insert into a fresh histogram.",
    note="Exhaustive to the stated depth over the action menu; canonicalisation is exact because Histogram has only (grid, counts) as state.", ref="4/C11"),
  "C12": dict(engine=E1, technique="exhaustive enumeration of all small data sets over awkward-value alphabets x 5 strategies, plus every n up to 10^4 over a (min,max,quartile) menu, with a termination watchdog; edge laws checked on the real build()/n_bins()",
    text="All arrays of length 1..6 over integer and N64 alphabets, every n <= 2000 (10^4) for Sqrt/Rice/Sturges and n <= 600 + sparse for FD/Auto over a menu of (min,max) pairs incl. adjacent floats and huge offsets; integer data in the upper part of the type range (u8, i16, i32, u32); GridBuilder + histogram totals in 1..3 columns. Pairs whose range added back to the minimum overshoots the maximum; integer data with an IQR of one unit; the last bin must start at or below the maximum (tolerance-free); a strategy accepting data with a non-positive width is a violation.",
@@ -59,10 +59,10 @@ P = {
    text="Every weak-order pattern of length 0..6 (7), get/partition at every in-range position and six out-of-range ones, bulk selection with out-of-range entries mixed in at every position; request lists of 33..130 entries; Bins::index and Grid::index over all small edge sets and index tuples incl. wrong arity and positions next to usize::MAX and 2^63. Call histories: every sequence of 2 calls from a menu of 80 and every sequence of 3 bulk calls on one thread (the verdict of a call must not depend on earlier calls). Edges reach Bins / Grid through Vec, fresh Array1 and narrowed Array1 constructors.",
    note="Complete up to the length bound, both profiles in every tier.", ref="4/C16"),
  "C17": dict(engine=E1, technique="exhaustive enumeration of the decision table routine x emptiness x shape relation x q validity x axis x layout on the real routines, against a hand-written decision function",
-   text="Every Result-returning public routine of the anchored files x first-input shapes x second-input relation x q lists x axes x element types x layouts: variant and payload must match the decision function; never a panic; zero total weight on non-empty inputs is not an error.",
+   text="Every Result-returning public routine of the anchored files x first-input shapes x second-input relation x q lists x axes x element types x layouts: variant and payload must match the decision function; never a panic; zero total weight on non-empty inputs is not an error. The 20 two-input routines again with both operands windows of ONE array (same start address, same strides, different extents; an array against itself).",
    note="Full table over the stated shape menu.", ref="4/C17"),
  "C18": dict(engine=E1, technique="exhaustive enumeration of request lists (all lists of length 0..4 over a q pool, one of 32) x patterns x layouts x pivot sequences; every bulk execution compared with every single-item execution",
-   text="Bulk quantiles vs single quantiles, bulk selection vs single selection, central_moments vs central_moment bit for bit, axis forms of the weighted family vs whole-array routine per lane; 2-3 long lanes per bulk call; long lanes under adversarial pivot policies. Axis forms on shapes up to 5-D, ddof {0, .5, 1}, equal non-unit weights. For n <= 4 every request list of n and n+1 positions with repeats. Per-axis forms must be identical (bit for bit) to the whole-array routine on the lane; strided 2-D inputs for the moments.",
+   text="Bulk quantiles vs single quantiles, bulk selection vs single selection, central_moments vs central_moment bit for bit, axis forms of the weighted family vs whole-array routine per lane; 2-3 long lanes per bulk call; long lanes under adversarial pivot policies. Axis forms on shapes up to 5-D, ddof {0, .5, 1}, equal non-unit weights. For n <= 4 every request list of n and n+1 positions with repeats. Per-axis forms must be identical (bit for bit) to the whole-array routine on the lane; strided 2-D inputs for the moments. Every 3x3 matrix over three values with each of its own rows / columns as the weights of the axis forms (per-axis element vs whole-array routine on owned copies and on the lane view).",
    note="Complete over the request-list space stated; pivots all for N<=4, deviation-bounded above.", ref="4/C18"),
  "C19": dict(engine=E1, technique="exhaustive enumeration of patterns x all ordered q pairs of the grid x strategies x pivot sequences; oracle-free order laws (monotonicity, bounds, strategy ordering, permutation and relabelling invariance)",
    text="Every multiset of ranks up to size 5 (6) x every arrangement, i8/i64/N64 tables (spread, extremes, 2x+1, beyond 2^53), all q pairs from the boundary grid, both profiles. Short bulk requests: every list of one or two (half of three) q values from seven, in any order, for n = 2..9. Fractional NotNone<N64> lanes through quantile_mut and float lanes (ties in adjacent pairs, NaNs interleaved) through quantile_axis_skipnan_mut. One lane of 2^24 + 2 elements; Option<i32> lanes with neighbours more than 2^24 apart through the skip-NaN entry point.",
@@ -107,7 +107,7 @@ def main():
             {"name": "E2", "path": "mc/src/bin/c11.rs", "serves_properties": ["C11"], "kind_free_text": "stateright 0.31 breadth-first explicit-state search; every transition executes the real Histogram::add_observation"},
         ],
         "checks": checks,
-        "notes": "All checks: exit 0 = held on everything explored, exit 1 + VIOLATION line = violation, exit 2 = machinery failure. Every check runs its harness in two build profiles (release; release + debug assertions + overflow checks), except C08 whose quick tier runs release only and C02 whose quick tier runs the checked build on two sub-harnesses. known_findings.json lists recorded defects (open: K1 for C01/C19, K2 for C17) and repaired ones (fixed: D1-D7). seeded/ holds 429 property-breaking changes with demonstrations; seeded/RESULTS.md records which checks detect which. COVERAGE.md lists every sub-harness with its bounds and measured counts.",
+        "notes": "All checks: exit 0 = held on everything explored, exit 1 + VIOLATION line = violation, exit 2 = machinery failure. Every check runs its harness in two build profiles (release; release + debug assertions + overflow checks), except C08 whose quick tier runs release only and C02 whose quick tier runs the checked build on two sub-harnesses. known_findings.json lists recorded defects (open: K1 for C01/C19, K2 for C17) and repaired ones (fixed: D1-D7). seeded/ holds 469 property-breaking changes with demonstrations; seeded/RESULTS.md records which checks detect which. COVERAGE.md lists every sub-harness with its bounds and measured counts.",
         "not_applicable": na,
     }
     with open(os.path.join(VERIF, "MANIFEST.json"), "w") as f:
